@@ -1,15 +1,25 @@
 use crate::gen::*;
 use clarabel::algebra::*;
+use clarabel::solver::SupportedConeT;
+use clarabel::verif_hooks::cones::*;
+
+pub fn stub_random_state() -> std::collections::hash_map::RandomState {
+    unsafe { std::mem::transmute::<[u64; 2], std::collections::hash_map::RandomState>([1, 2]) }
+}
 
 #[kani::proof]
-#[kani::unwind(8)]
-pub fn p_select_conc() {
-    let b = [1.0f64, 2.0, 3.0, 4.0];
-    let x: f64 = kani::any();
-    let mut bb = b;
-    bb[0] = x;
-    let m = vec![true, false, true, true];
-    let r = bb.select(&m);
-    assert!(r.len() == 3);
-    kani::cover!(r[0] == 5.0);
+#[kani::unwind(20)]
+#[kani::stub(std::collections::hash_map::RandomState::new, stub_random_state)]
+pub fn p_composite_stack() {
+    crate::stack_composite!(cones, [SupportedConeT::<f64>::ZeroConeT(1), SupportedConeT::<f64>::NonnegativeConeT(2)]);
+    let mut n = 0;
+    for c in cones.iter() {
+        let mut i = 0;
+        while i < c.numel() {
+            n += 1;
+            i += 1;
+        }
+        assert!(c.Hs_is_diagonal());
+    }
+    assert!(n == 3 && cones.numel() == 3);
 }
